@@ -47,19 +47,57 @@ def includes(repo, flavour):
 
 
 def build(harness, flavour="c", out=None, repo="/repo", extra_defs=(), harness_src=None, quiet=True):
-    out = out or os.path.join(VERIF, "build", "%s_%s" % (harness, flavour))
-    os.makedirs(out, exist_ok=True)
+    """content-addressed: the output directory is named after a hash of every input (sources of the code under
+    test, their headers, the runtime, flags), so concurrent checks share a finished build and an edit to /repo
+    always gives a fresh one."""
+    import fcntl, glob, shutil, time
     srcs, rtextra, wraps = HARNESS[harness]
     inc = includes(repo, flavour)
     cc = ["g++", "-std=c++11", "-x", "c++", "-fpermissive"] if flavour == "cpp" else ["gcc"]
     uut_flags = ["-O1", "-fno-inline", "-g", "-fsanitize=thread", "-fno-pic", "-fno-pie", "-w"] + list(extra_defs)
+    rt_srcs = ["rt.c", "replay.c"] + rtextra + [(harness_src or harness) + ".c"]
+    h = hashlib.sha256()
+    h.update(repr((harness, flavour, uut_flags, WRAPS, wraps, cc)).encode())
+    inputs = [os.path.join(repo, s) for s in srcs] + [os.path.join(VERIF, "rt", s) for s in rt_srcs]
+    for d in ("internal", "public", "platform/gcc_no_tls", "platform/linux", "platform/gcc", "platform/gcc_new", "platform/posix", "platform/x86_64",
+              "platform/c11", "platform/c++11", "platform/c++11.futex"):
+        inputs += sorted(glob.glob(os.path.join(repo, d, "*.h")))
+    inputs += sorted(glob.glob(os.path.join(VERIF, "rt", "*.h")))
+    for f in inputs:
+        try:
+            h.update(f.encode()); h.update(open(f, "rb").read())
+        except OSError:
+            h.update(b"missing")
+    tag = h.hexdigest()[:12]
+    base = os.path.join(VERIF, "build")
+    os.makedirs(base, exist_ok=True)
+    out = out or os.path.join(base, "%s_%s_%s" % (harness, flavour, tag))
+    exe = os.path.join(out, harness)
+    lock = open(os.path.join(base, ".lock_%s_%s" % (harness, flavour)), "w")
+    fcntl.flock(lock, fcntl.LOCK_EX)
+    try:
+        if os.path.exists(exe) and os.path.exists(os.path.join(out, ".done")):
+            return exe
+        # drop stale builds of the same harness
+        olds = sorted(glob.glob(os.path.join(base, "%s_%s_*" % (harness, flavour))), key=os.path.getmtime)
+        for d in olds[:-2]:
+            shutil.rmtree(d, ignore_errors=True)
+        os.makedirs(out, exist_ok=True)
+        _do_build(harness, flavour, out, repo, srcs, rt_srcs, inc, cc, uut_flags, wraps, extra_defs, exe)
+        open(os.path.join(out, ".done"), "w").write("ok")
+        return exe
+    finally:
+        fcntl.flock(lock, fcntl.LOCK_UN)
+        lock.close()
+
+
+def _do_build(harness, flavour, out, repo, srcs, rt_srcs, inc, cc, uut_flags, wraps, extra_defs, exe):
     jobs = []
     objs = []
     for s in srcs:
         o = os.path.join(out, "uut_" + os.path.basename(s).replace(".", "_") + ".o")
         jobs.append((cc + uut_flags + inc + ["-c", os.path.join(repo, s), "-o", o], o, True))
         objs.append(o)
-    rt_srcs = ["rt.c", "replay.c"] + rtextra + [(harness_src or harness) + ".c"]
     rt_inc = ["-I" + os.path.join(VERIF, "rt")] + includes(repo, "c")
     for s in rt_srcs:
         o = os.path.join(out, "rt_" + s.replace(".", "_") + ".o")
@@ -75,11 +113,9 @@ def build(harness, flavour="c", out=None, repo="/repo", extra_defs=(), harness_s
                  "--rename-section", ".bss=uutbss,alloc,load,data,contents", o])
     with cf.ThreadPoolExecutor(16) as ex:
         list(ex.map(one, jobs))
-    exe = os.path.join(out, harness)
     link = ["g++" if flavour == "cpp" else "gcc", "-no-pie", "-o", exe] + objs + \
            ["-Wl," + ",".join("--wrap=" + w for w in WRAPS + wraps)]
     run(link)
-    return exe
 
 
 if __name__ == "__main__":
